@@ -335,6 +335,9 @@ class Engine:
             return ('constval', bits, ty, (c.get('uneval') or {}).get('path'))
         if t.get('k') == 'tuple' and not t.get('elems'):
             return UNIT
+        if 'uneval' in c and 'promoted' in c['uneval']:
+            u = c['uneval']
+            return ('promoted', u['path'], u['promoted'], ty)
         if 'uneval' in c:
             u = c['uneval']
             return ('assoc', u['path'], u.get('name'), u.get('self_ty') or (u['args'][0] if u['args'] else None), tuple(u['args']))
